@@ -38,7 +38,10 @@ TRUSTED = [
 ]
 ASSUMES = [
     "durations are positive rationals; every instruction uses at least one qubit",
-    "the hardware constraint is the default qubit_constraint",
+    "the hardware constraint is qubit_constraint, alone or in a constraint_functions list (any position) together with "
+    "functions it implies (conjunction; exact tie); stricter lists and method strings in other spellings ('alap', ' ALAP', "
+    "...; undocumented, the shipped code treats them as ASAP) are checked by the timetable oracle and the proved checker only; "
+    "attributes re-assigned after construction / between calls are compared with the model at the values in force at the call",
     "clause 3 ('does not commute with') is proved w.r.t. the commutation predicate handed to the graph builder "
     "(any predicate); the harness oracle evaluates it with numerically computed gate commutators",
 ]
@@ -223,6 +226,92 @@ def eff_dur(spec):
     return Fraction(1) if spec.get("how") == "none" else dur_of(spec)
 
 
+# hardware constraint functions a user may hand to Scheduler(constraint_functions=[...]).  A constraint list is a
+# CONJUNCTION: two instructions may share a cycle / overlap only if EVERY function allows it.  "true" and "weak" are
+# implied by the library's qubit_constraint (they allow every pair on disjoint qubits), so a list that contains
+# "qubit" and otherwise only those is equivalent to the default [qubit_constraint] - in ANY order and with repeats -
+# and the model (conf = shares) applies unchanged.  "no2q" is a genuine extra restriction (oracle-only streams).
+def _cons_true(ind1, ind2, instructions):
+    return True
+
+
+def _cons_weak(ind1, ind2, instructions):
+    a, b = instructions[ind1], instructions[ind2]
+    return not (a.name == b.name and bool(set(a.used_qubits) & set(b.used_qubits)))
+
+
+def _cons_no2q(ind1, ind2, instructions):
+    return not (len(instructions[ind1].used_qubits) > 1 and len(instructions[ind2].used_qubits) > 1)
+
+
+CONS_EQUIV = [["true", "qubit"], ["weak", "qubit"], ["qubit", "true"], ["true", "weak", "qubit"], ["weak", "qubit", "true"],
+              ["qubit"], ["true", "qubit", "qubit"], ["qubit", "weak"]]
+CONS_STRICT = [["no2q", "qubit"], ["qubit", "no2q"], ["true", "no2q", "qubit"], ["no2q", "weak", "qubit"]]
+
+
+def constraint_list(names):
+    if names is None:
+        return None
+    from qutip_qip.compiler.scheduler import qubit_constraint
+    table = dict(true=_cons_true, weak=_cons_weak, no2q=_cons_no2q, qubit=qubit_constraint)
+    return [table[x] for x in names]
+
+
+def cons_violation(inp, cycles):
+    """every pair of instructions of one cycle must be allowed by EVERY listed constraint (independent re-statement
+    on the specs) -> None | detail"""
+    names = inp.get("cons") or ["qubit"]
+    specs = inp["instrs"]
+    for c in cycles:
+        for x in range(len(c)):
+            for y in range(x + 1, len(c)):
+                a, b = specs[c[x]], specs[c[y]]
+                qa, qb = set(spec_qubits(a)), set(spec_qubits(b))
+                if "qubit" in names and qa & qb:
+                    return dict(cycle=c, pair=[c[x], c[y]], constraint="qubit_constraint")
+                if "no2q" in names and len(qa) > 1 and len(qb) > 1:
+                    return dict(cycle=c, pair=[c[x], c[y]], constraint="no two multi-qubit instructions in parallel")
+    return None
+
+
+def mk_scheduler(inp):
+    """Scheduler for the call described by inp.  inp["cons"]: names of the constraint_functions list (absent = default).
+    inp["ctor"] (optional): dict(method, perm[, cons]) - the values given to the CONSTRUCTOR; the public attributes
+    method / allow_permutation / constraint_functions are then assigned the values of inp itself before schedule() is
+    called.  The expected result is that of a fresh Scheduler built with the final values (history-free model)."""
+    from qutip_qip.compiler import Scheduler
+    ctor = inp.get("ctor")
+    if ctor is None:
+        return Scheduler(inp["method"], allow_permutation=inp["perm"], constraint_functions=constraint_list(inp.get("cons")))
+    sch = Scheduler(ctor["method"], allow_permutation=ctor["perm"], constraint_functions=constraint_list(ctor.get("cons")))
+    set_attributes(sch, inp)
+    return sch
+
+
+def set_attributes(sch, inp):
+    """assign the public attributes of an EXISTING Scheduler object"""
+    from qutip_qip.compiler.scheduler import qubit_constraint
+    sch.method = inp["method"]
+    sch.allow_permutation = inp["perm"]
+    cl = constraint_list(inp.get("cons"))
+    sch.constraint_functions = [qubit_constraint] if cl is None else cl
+
+
+def with_variants(rng, inp, p_cons=0.25, p_ctor=0.2):
+    """decorate an ordinary input with (a) an equivalent multi-function constraint list, (b) constructor values that
+    differ from the attribute values in force when schedule() is called"""
+    if rng.random() < p_cons:
+        inp["cons"] = list(rng.choice(CONS_EQUIV))
+    if rng.random() < p_ctor:
+        ctor = dict(method=rng.choice(["ASAP", "ALAP"]), perm=rng.random() < 0.5)
+        if rng.random() < 0.6:
+            ctor["perm"] = not inp["perm"]
+        if rng.random() < 0.3:
+            ctor["cons"] = list(rng.choice(CONS_EQUIV + CONS_STRICT))
+        inp["ctor"] = ctor
+    return inp
+
+
 def _one_call(sch, call, SM):
     """one Scheduler.schedule call on the given Scheduler object -> (result, perms used by shuffle)"""
     import random as _random
@@ -320,11 +409,17 @@ def run_real(inp):
     old = SM.shuffle
     try:
         try:
-            sch = Scheduler(inp["method"], allow_permutation=inp["perm"])
+            first = (inp.get("history") or [inp])[0]
+            sch = mk_scheduler(dict(inp, **{k: first[k] for k in ("method", "perm") if k in first},
+                                    cons=first.get("cons", inp.get("cons"))) if inp.get("history") else inp)
         except Exception as e:  # noqa
             return "rejected: " + type(e).__name__, []
         for call in inp.get("history", []):
+            if "method" in call:
+                set_attributes(sch, call)      # attributes changed between two schedule() calls on one object
             _one_call(sch, call, SM)
+        if inp.get("history"):
+            set_attributes(sch, inp)
         return _one_call(sch, inp, SM)
     finally:
         SM.shuffle = old
@@ -552,7 +647,7 @@ COMMUTING_KINDS = ["CNOT", "CNOT", "CNOT", "RZ", "RZ", "Z", "X", "RX", "SNOT"]
 
 
 def _call_of(inp):
-    return {k: inp[k] for k in ("instrs", "mode", "random", "shuf_seed", "as", "repeat") if k in inp}
+    return {k: inp[k] for k in ("instrs", "mode", "random", "shuf_seed", "as", "repeat", "method", "perm", "cons") if k in inp}
 
 
 def gen_history(rng):
@@ -566,6 +661,8 @@ def gen_history(rng):
     perm = rng.random() < 0.8
     same_len = rng.random() < 0.5
     n0 = rng.randint(2, 7)
+    mutate = rng.random() < 0.4
+    cons = list(rng.choice(CONS_EQUIV)) if rng.random() < 0.25 else None
     calls = []
     for c in range(k):
         n = n0 if same_len else rng.randint(1, 8)
@@ -588,8 +685,17 @@ def gen_history(rng):
         else:
             specs = [rand_gate(rng, rng.choice([3, 4, 5])) for _ in range(n)]
         specs = with_durations(rng, specs, rng.choice(STYLES))
-        calls.append(dict(instrs=specs, method=method, perm=perm, random=rng.random() < 0.25,
-                          shuf_seed=rng.randrange(10 ** 6), mode="pulse" if c == k - 1 or rng.random() < 0.8 else "cycles"))
+        call = dict(instrs=specs, method=method, perm=perm, random=rng.random() < 0.25,
+                    shuf_seed=rng.randrange(10 ** 6), mode="pulse" if c == k - 1 or rng.random() < 0.8 else "cycles")
+        if mutate and c:
+            # the public attributes are re-assigned between two schedule() calls on the one object
+            call["method"] = rng.choice(["ASAP", "ALAP"])
+            call["perm"] = (not calls[-1]["perm"]) if rng.random() < 0.6 else rng.random() < 0.5
+            if rng.random() < 0.4:
+                call["cons"] = list(rng.choice(CONS_EQUIV))
+        elif cons is not None:
+            call["cons"] = list(cons)
+        calls.append(call)
     out = []
     for c in range(k):
         inp = dict(calls[c])
@@ -656,6 +762,9 @@ def gen_roles(rng, n=None):
 
 
 PARAM_ALPHABET = [0.5, 1.25]     # small on purpose: equal-prefix / equal-suffix / fully equal parameter tuples occur
+# Scheduler.__init__ accepts any method string without validation; the shipped code treats everything that is not exactly
+# "ALAP" as ASAP.  Nothing is documented for these spellings, so only the property itself (valid timetable) is required
+METHOD_SPELLINGS = ["alap", " ALAP", "Alap", "ALAP ", "asap", "Asap", " ASAP", "aLAP", "alap\n"]
 
 
 def gen_multiparam(rng):
@@ -732,12 +841,12 @@ def correspond(ctx):
         exact.append(("corpus", inp))
     # structured random, exact tie
     for _ in range(ctx.n(1500, 6000)):
-        exact.append(("random<=8", gen_input(rng, 8, mode="pulse")))
+        exact.append(("random<=8", with_variants(rng, gen_input(rng, 8, mode="pulse"))))
     for _ in range(ctx.n(200, 800)):
         exact.append(("cycles-with-durations", gen_input(rng, 8, mode=rng.choice(["cycles", "indices"]))))
     # commutation-rule heavy
     for _ in range(ctx.n(400, 1500)):
-        exact.append(("cnot-x-z", gen_input(rng, 7, N=rng.choice([2, 3]), kinds=["CNOT", "CNOT", "X", "RX", "Z", "RZ", "RZ", "SNOT"])))
+        exact.append(("cnot-x-z", with_variants(rng, gen_input(rng, 7, N=rng.choice([2, 3]), kinds=["CNOT", "CNOT", "X", "RX", "Z", "RZ", "RZ", "SNOT"]), 0.4, 0.3)))
     # histories: several different lists scheduled on ONE Scheduler object; the model is history-free, so every
     # call must give what a fresh Scheduler gives
     for _ in range(ctx.n(350, 1500)):
@@ -749,10 +858,10 @@ def correspond(ctx):
         exact.append(("compile-entry-point", gen_compile(rng)))
     # several-parameter gates with parameter tuples from a small alphabet (equal suffix / prefix / equal tuples)
     for _ in range(ctx.n(500, 2000)):
-        exact.append(("multi-parameter-same-target", gen_multiparam(rng)))
+        exact.append(("multi-parameter-same-target", with_variants(rng, gen_multiparam(rng))))
     # order/role-sensitive gates (user gate, RZX, plain Gate objects with unusual control/target splits)
     for _ in range(ctx.n(500, 2000)):
-        exact.append(("role-and-order-forms", gen_roles(rng)))
+        exact.append(("role-and-order-forms", with_variants(rng, gen_roles(rng))))
     # exhaustive small alphabet, two durations
     ex = list(exhaustive_inputs(ctx.n(2, 4)))
     if not ctx.thorough:
@@ -777,6 +886,12 @@ def correspond(ctx):
         corr.tally(kind)
         corr.tally("n=%d" % len(inp["instrs"]))
         corr.tally(inp["method"] + ("+shuffle" if inp.get("random") else ""))
+        if inp.get("cons") and len(inp["cons"]) > 1:
+            corr.tally("constraint list with >= 2 functions" + ("" if inp["cons"][0] == "qubit" else ", qubit_constraint not first"))
+        if inp.get("ctor"):
+            corr.tally("attributes re-assigned after construction")
+        if any("method" in c for c in inp.get("history", [])):
+            corr.tally("attributes re-assigned between schedule() calls")
         corr.count(key_of(inp), nontrivial=nontrivial(inp), sample=inp)
         r = "rejected" if isinstance(res, str) else res
         if r != mod:
@@ -813,6 +928,13 @@ def correspond(ctx):
                 fr = Fraction(x)
                 s["dur"] = [fr.numerator, fr.denominator]
                 s.pop("how", None)
+        r_ = rng.random()
+        if r_ < 0.15:
+            inp["cons"] = list(rng.choice(CONS_STRICT + CONS_EQUIV))
+        elif r_ < 0.30:
+            # the method string in another spelling: the property speaks of every returned timetable
+            inp["method"] = rng.choice(METHOD_SPELLINGS)
+            corr.tally("method spelling " + repr(inp["method"]))
         res, _ = run_real(inp)
         corr.tally("oracle-only<=14")
         corr.count(key_of(inp), nontrivial=nontrivial(inp))
@@ -859,6 +981,11 @@ def search(ctx, broken):
     rng = ctx.rng
     cands += [gen_input(rng, 10, mode="pulse") for _ in range(2000)]
     cands += [i for _ in range(400) for i in gen_history(rng) if i["mode"] == "pulse"]
+    for _ in range(1500):
+        i = with_variants(rng, gen_input(rng, 8, N=rng.choice([2, 3]), mode="pulse", kinds=COMMUTING_KINDS), 0.5, 0.4)
+        if rng.random() < 0.3:
+            i["method"] = rng.choice(METHOD_SPELLINGS)
+        cands.append(i)
     cands += [gen_compile(rng) for _ in range(600)] + [gen_multiparam(rng) for _ in range(600)] + [gen_roles(rng) for _ in range(600)]
     for inp in cands:
         res, _ = run_real(inp)
